@@ -33,7 +33,11 @@ class C09(Prop):
                   'path; paths are regular files readable by the process.  The class of each mutator (checked write / only H5Gunlink / '
                   'unlink loop) is read off the backend by hand (coq/FileIO/Script.v); whether H5Group::removeGroup checks H5Gunlink is '
                   'read from the source on every run.  The in-session view of a read-only file after a failed attribute overwrite '
-                  '(HDF5 keeps the new value in its cache) is not part of this property (C08).  Version mismatches belong to C10.')
+                  '(HDF5 keeps the new value in its cache) is not part of this property (C08).  Version mismatches belong to C10.  OPEN FINDING: a second '
+                  'File object opened ReadOnly while the same process has the path open ReadWrite accepts mutating calls (HDF5 shares the '
+                  'intent of the first open); the model expresses it (Modes.second_open / mutate_second, C09_second_ro_file_refuted), '
+                  'C09_ro_no_write is the statement for a File that is alone on its path; after the second File is closed the first one '
+                  'is unusable (its close() sweeps every id of the shared file) - the scripts only close it then.')
     technique = ('Coq proof over a statement-by-statement model of File::open/FileHDF5 + correspondence on real files with SHA-256 byte '
                  'identity and a systematic enumeration of the mutators of the public API (each also run read-write to show it is a '
                  'well-formed mutating call)')
@@ -172,6 +176,30 @@ class C09(Prop):
             for mode in ('ro', 'rw'):
                 cases.append(Case(base + ['hdr ver=' + vtxt, 'open %s none 0' % mode, 'dump', 'close'], 'header-by-version'))
 
+        # E3. a SECOND File object on the same path in the same process.  The specification is the property's: a File
+        #     that reports ReadOnly refuses every mutating call and the bytes do not change because of them - whatever
+        #     else the process has open.  (HDF5 shares the access intent of the first open between all ids of a file.)
+        known_muts = [m for m in G.SAFE_MUTS if m in muts]
+        nsec = (3 if not thorough else 25) * scale
+        for (first, second) in [('rw', 'ro'), ('ow', 'ro'), ('ro', 'rw'), ('ro', 'ro'), ('ro', 'ow'), ('rw', 'rw'), ('rw', 'ow')]:
+            for _ in range(nsec if second == 'ro' else max(1, nsec // 3)):
+                c = rnd.choice(COMPS)
+                lines = ['fs missing', 'open rw %s 0' % c, 'rich r'] + [l for l in G.random_content(rnd, rnd.randint(0, 4)) if l != 'dump']
+                if first == 'ro':
+                    lines += ['close', 'open ro %s 0' % c]
+                elif first == 'rw' and rnd.random() < 0.5:
+                    lines += ['close', 'open rw %s 0' % c]
+                else:
+                    lines += ['flush']                     # first == 'ow' (or rw on the file it created): the creating session itself
+                lines += ['open2 %s %s %d' % (second, rnd.choice(COMPS + ['auto']), rnd.choice([0, 0, 1])), 'sha0']
+                picks = rnd.sample(known_muts, rnd.randint(2, 5))
+                for i, m in enumerate(picks):
+                    lines.append('mutin2 %s %d' % (m, uc))
+                    if rnd.random() < 0.4:
+                        lines.append('blk2 second%d' % i)
+                lines += ['dump2', 'flush2', 'sha?', 'close2', 'close', 'open ro none 0', 'dump', 'close']
+                cases.append(Case(lines, 'second-file'))
+
         # F. random walks over the whole command set
         for _ in range(15 * scale if not thorough else 300 * scale):
             lines = ['fs ' + rnd.choice(['missing', 'lib', 'lib', 'plainh5', 'nonh5'])]
@@ -204,9 +232,35 @@ class C09(Prop):
         return cases
 
     def signature(self, case, impl, spec):
+        first_mode = second_mode = None          # modes of the two File objects open at the failing line (as the implementation reports them)
+        accepted_through_ro = False
         for line, a, b in zip(case.lines, impl, spec):
+            t = line.split(' ')
+            ok = (a or '').startswith('OK')
+            if t[0] == 'fs':
+                first_mode = second_mode = None
+            if t[0] == 'open' and ok:
+                first_mode = (a.split('mode=')[1].split(' ')[0]) if 'mode=' in a else t[1]
+            if t[0] == 'open2' and ok:
+                second_mode = (a.split('mode=')[1].split(' ')[0]) if 'mode=' in a else t[1]
+            if t[0] == 'close2':
+                second_mode = None
+            if t[0] in ('mutin2', 'blk2') and second_mode == 'ro' and first_mode in ('rw', 'ow') and \
+                    (a == 'OK %s OK' % (t[1] if len(t) > 1 else '') or a == 'OK blk2'):
+                accepted_through_ro = True
+                if b != 'ANY' and not self.compare(a, b):
+                    return {'kind': 'second-file', 'defect': 'ro-while-rw-open'}
             if b != 'ANY' and not self.compare(a, b):
-                t = line.split(' ')
+                if t[0] in ('mutin2', 'blk2', 'sha?') and case.tag.startswith('second-file'):
+                    writable_first = first_mode in ('rw', 'ow')
+                    through_ro = second_mode == 'ro' or (t[0] == 'sha?' and accepted_through_ro)
+                    accepted = (t[0] == 'mutin2' and a == 'OK %s OK' % t[1]) or (t[0] == 'blk2' and a == 'OK blk2') or \
+                               (t[0] == 'sha?' and a == 'OK sha-DIFF' and accepted_through_ro)
+                    if writable_first and through_ro and accepted:
+                        # a mutating call through a File that reports ReadOnly is accepted (and reaches the disk) while the
+                        # same process has the path open ReadWrite
+                        return {'kind': 'second-file', 'defect': 'ro-while-rw-open'}
+                    return {'kind': 'second-file', 'defect': 'other', 'cmd': t[0], 'first': first_mode, 'second': second_mode, 'impl': a}
                 if t[0] == 'romut':
                     out = (a or '').split(' ')
                     verdict = out[2] if len(out) > 2 else a
